@@ -39,7 +39,8 @@ Definition step_goal c (s : RS.state) (ph : N -> RS.phase) (it : item) : Prop :=
   (sc_sl_done c = false ->
    match it with IIn i => item_ok c it s = true \/ known_deviation hstate c s i = true | _ => True end) /\
   Post c' (spec_feed c it s) (ph_next ph it) /\
-  (forall sid rq, In (ODispatch sid rq) (new_out c c') -> ph_next ph it sid = RS.PDone).
+  (forall sid rq, In (ODispatch sid rq) (new_out c c') -> ph_next ph it sid = RS.PDone) /\
+  (exists d, sc_out c' = d ++ sc_out c).
 
 (* what makes Sim again, before the closed streams the ring dropped are forgotten *)
 Definition live_tuple c' (s2 : RS.state) (ph' : N -> RS.phase) : Prop :=
@@ -83,7 +84,7 @@ Proof.
     split; [exact W'|]. destruct (sc_sl_done (feed c (IIn i))).
     + rewrite D'. exact Hp.
     + destruct Hp as (A & B & C & D & E & F & P1 & P2). apply Sim_intro; assumption.
-  - intros sid rq Hin. apply (Hdisp sid rq). rewrite NO in Hin. apply in_rev in Hin. exact Hin.
+  - split; [|exists d; exact Hd]. intros sid rq Hin. apply (Hdisp sid rq). rewrite NO in Hin. apply in_rev in Hin. exact Hin.
 Qed.
 
 (* ---------- the same for items that are not inputs ---------- *)
@@ -109,7 +110,7 @@ Proof.
     split; [exact W'|]. destruct (sc_sl_done (feed c it)).
     + rewrite D'. exact Hp.
     + destruct Hp as (A & B & C & D & E & F & P1 & P2). apply Sim_intro; assumption.
-  - intros sid rq Hin. exfalso. apply (Hdisp sid rq). rewrite NO in Hin. apply in_rev in Hin. exact Hin.
+  - split; [|exists d; exact Hd]. intros sid rq Hin. exfalso. apply (Hdisp sid rq). rewrite NO in Hin. apply in_rev in Hin. exact Hin.
 Qed.
 
 (* ---------- the second half of a lockstep pair ---------- *)
